@@ -582,6 +582,23 @@ Proof.
   destruct (settle n ds) as [[n1 o1] d]. exact G.
 Qed.
 
+Lemma settle_app_g (P : output -> Prop) pm n ds :
+  sysP P -> dialP pm P -> pmap n = pm -> gres P n (fst (settle_app n ds)).
+Proof.
+  intros HP HD Hpm. unfold settle_app.
+  pose proof (io_iteration_g P pm n ds HP HD Hpm) as G2. destruct (io_iteration n ds) as [[n2 o2] ds'].
+  cbn [fst] in *.
+  pose proof (flush_g P n2 HP) as G3. destruct (flush n2) as [n3 o3]. cbn [fst].
+  eapply gres_app; eassumption.
+Qed.
+
+Lemma settle_app'_g (P : output -> Prop) pm n ds :
+  sysP P -> dialP pm P -> pmap n = pm -> gres P n (settle_app' n ds).
+Proof.
+  intros HP HD Hpm. unfold settle_app'. pose proof (settle_app_g P pm n ds HP HD Hpm) as G.
+  destruct (settle_app n ds) as [[n1 o1] d]. exact G.
+Qed.
+
 (* the output predicates *)
 Definition sysout (pm : list (String.string * bool)) (o : output) : Prop :=
   match o with
@@ -611,6 +628,8 @@ Proof. destruct o; cbn; auto. Qed.
    its own CER / DWR *)
 Lemma settle'_sys n ds : gres (sysout (pmap n)) n (settle' n ds).
 Proof. apply (settle'_g _ (pmap n)); [apply sysP_sysout|apply dialP_sysout|reflexivity]. Qed.
+Lemma settle_app'_sys n ds : gres (sysout (pmap n)) n (settle_app' n ds).
+Proof. apply (settle_app'_g _ (pmap n)); [apply sysP_sysout|apply dialP_sysout|reflexivity]. Qed.
 
 (* ================================================================================== *)
 (* 5. C09: application answers                                                        *)
@@ -665,7 +684,7 @@ Proof.
   - pose proof (route_answer_frame n a) as F1. rewrite Er in F1. cbn [snd] in F1.
     pose proof (send_message_frame n1 cid a) as F2. pose proof (send_message_out n1 cid a) as O2.
     destruct (send_message n1 cid a) as [n2 o2]. cbn [fst snd] in F2, O2.
-    pose proof (settle'_sys n2 ds) as G. destruct (settle' n2 ds) as [n3 o3].
+    pose proof (settle_app'_sys n2 ds) as G. destruct (settle_app' n2 ds) as [n3 o3].
     intros H. injection H as <- <-. right.
     apply route_answer_some in Er. destruct Er as (host & l & c & _ & _ & Hc & Hh & Hr & Hin & Hpw & Hm & _).
     exists cid, c, l, o3. subst o2. split; [reflexivity|]. split.
@@ -759,7 +778,7 @@ Proof.
   split; [exact Hgone|].
   intros ds i n' outs Hs [l0 [Hl0 Hm0]]. cbn [step] in Hs. rewrite Er in Hs.
   pose proof (send_message_frame n1 cid a) as F2. destruct (send_message n1 cid a) as [n2 o2]. cbn [fst] in F2.
-  pose proof (settle'_sys n2 ds) as [F3 _]. destruct (settle' n2 ds) as [n3 o3]. cbn [fst] in F3.
+  pose proof (settle_app'_sys n2 ds) as [F3 _]. destruct (settle_app' n2 ds) as [n3 o3]. cbn [fst] in F3.
   injection Hs as <- <-.
   assert (Hp : pw_has (n_peer_waiting n1) (c_host c) (o_hbh a, o_e2e a)).
   { apply F2, F3. exists l0. split; assumption. }
@@ -781,7 +800,7 @@ Proof.
   { pose proof (route_answer_frame n a) as F1. rewrite Er in F1. cbn [snd] in F1.
     cbn [step] in Hs. rewrite Er in Hs.
     pose proof (send_message_frame n1 cid a) as F2. destruct (send_message n1 cid a) as [n2 o2]. cbn [fst] in F2.
-    pose proof (settle'_sys n2 ds) as [F3 _]. destruct (settle' n2 ds) as [n3 o3]. cbn [fst] in F3.
+    pose proof (settle_app'_sys n2 ds) as [F3 _]. destruct (settle_app' n2 ds) as [n3 o3]. cbn [fst] in F3.
     injection Hs as <- <-. eapply pws_trans; [apply F1|]. eapply pws_trans; [apply F2|apply F3]. }
   apply C09_gone_is_error. left. intros h l Hl.
   destruct (mem_zz (o_hbh a, o_e2e a) l) eqn:Em; [|reflexivity]. exfalso.
@@ -977,7 +996,7 @@ Definition req_core (n0 : node) (e2e : Z) (ds : dials) (i : nat) (m : omsg) (rea
                                         (n_peer_waiting n1) (n_origin_waiting n1) (n_sent_answers n1) in
                   let n3 := set_apps n2 (upd_app (n_apps n2) i (fun a => set_awaiting a (a_waiting a ++ [(hbh, n_now n2 + timeout)])%list)) in
                   let '(n4, o4) := send_message n3 cid m' in
-                  let '(n5, o5) := settle' n4 ds in (n5, (o4 ++ o5)%list)
+                  let '(n5, o5) := settle_app' n4 ds in (n5, (o4 ++ o5)%list)
               end
           end
       end
@@ -1009,7 +1028,7 @@ Lemma req_core_shape n0 e2e ds i m realm pick timeout n' outs :
   exists usable p cid c m' n4 rest,
     route_request n0 i realm = Some usable /\ usable <> [] /\ choose usable pick = Some p /\
     p_conn p = Some cid /\ get_conn n0 cid = Some c /\
-    outs = OQueue cid m' :: rest /\ settle' n4 ds = (n', rest) /\ List.Forall (sysout (pmap n0)) rest /\
+    outs = OQueue cid m' :: rest /\ settle_app' n4 ds = (n', rest) /\ List.Forall (sysout (pmap n0)) rest /\
     o_req m' = true /\ o_cmd m' = o_cmd m /\ o_tag m' = o_tag m /\
     o_hbh m' = (if o_hbh m =? 0 then seq_next (c_hbh c) else o_hbh m) /\ o_e2e m' = e2e /\
     (exists c4, get_conn n4 cid = Some c4 /\
@@ -1027,8 +1046,8 @@ Proof.
   destruct (o_hbh m =? 0) eqn:Eh; cbv zeta in H.
   - match type of H with context [send_message ?x ?cc ?mm] => set (n3 := x) in H; set (m' := mm) in H end.
     rewrite (send_message_req_eq n3 cid m' eq_refl) in H.
-    match type of H with context [settle' ?x ds] => set (n4 := x) in H end.
-    pose proof (settle'_sys n4 ds) as G. destruct (settle' n4 ds) as [n5 o5] eqn:E5. injection H as <- <-.
+    match type of H with context [settle_app' ?x ds] => set (n4 := x) in H end.
+    pose proof (settle_app'_sys n4 ds) as G. destruct (settle_app' n4 ds) as [n5 o5] eqn:E5. injection H as <- <-.
     assert (F : frame n0 n4).
     { eapply frame_trans; [apply (frame_upd_conn n0 cid (fun c0 => set_chbh c0 (seq_next (c_hbh c0)))); reflexivity|].
       eapply frame_trans; [|apply (frame_upd_conn n3 cid (fun c0 => set_cout c0 (c_out c0 ++ [m'])%list)); reflexivity].
@@ -1047,8 +1066,8 @@ Proof.
     cbn [n4 n3 n_app_waiting set_conns set_apps set_waiting]. apply List.in_or_app. right. left. reflexivity.
   - match type of H with context [send_message ?x ?cc ?mm] => set (n3 := x) in H; set (m' := mm) in H end.
     rewrite (send_message_req_eq n3 cid m' eq_refl) in H.
-    match type of H with context [settle' ?x ds] => set (n4 := x) in H end.
-    pose proof (settle'_sys n4 ds) as G. destruct (settle' n4 ds) as [n5 o5] eqn:E5. injection H as <- <-.
+    match type of H with context [settle_app' ?x ds] => set (n4 := x) in H end.
+    pose proof (settle_app'_sys n4 ds) as G. destruct (settle_app' n4 ds) as [n5 o5] eqn:E5. injection H as <- <-.
     assert (F : frame n0 n4).
     { eapply frame_trans; [|apply (frame_upd_conn n3 cid (fun c0 => set_cout c0 (c_out c0 ++ [m'])%list)); reflexivity].
       apply frame_same; reflexivity. }
@@ -1075,7 +1094,7 @@ Theorem C10_request_shape n ds i m realm pick timeout n' outs :
   exists usable p cid c m' n4 rest,
     route_request n i realm = Some usable /\ usable <> [] /\ choose usable pick = Some p /\
     p_conn p = Some cid /\ get_conn n cid = Some c /\
-    outs = OQueue cid m' :: rest /\ settle' n4 ds = (n', rest) /\ List.Forall (sysout (pmap n)) rest /\
+    outs = OQueue cid m' :: rest /\ settle_app' n4 ds = (n', rest) /\ List.Forall (sysout (pmap n)) rest /\
     o_req m' = true /\ o_cmd m' = o_cmd m /\ o_tag m' = o_tag m /\
     o_hbh m' = (if o_hbh m =? 0 then seq_next (c_hbh c) else o_hbh m) /\
     o_e2e m' = (if o_e2e m =? 0 then seq_next (n_e2e n) else o_e2e m) /\
@@ -1138,7 +1157,7 @@ Theorem C10_hbh_fresh n ds i m realm pick timeout n' outs :
   exists cid c m' rest n4 c4,
     outs = OQueue cid m' :: rest /\ get_conn n cid = Some c /\
     o_hbh m' = seq_next (c_hbh c) /\
-    settle' n4 ds = (n', rest) /\ get_conn n4 cid = Some c4 /\ c_hbh c4 = seq_next (c_hbh c) /\
+    settle_app' n4 ds = (n', rest) /\ get_conn n4 cid = Some c4 /\ c_hbh c4 = seq_next (c_hbh c) /\
     (1 <= c_hbh c <= 4294967295 ->
      1 <= o_hbh m' <= 4294967295 /\ o_hbh m' <> 0 /\ o_hbh m' <> c_hbh c /\
      seq_next (c_hbh c4) <> o_hbh m').
@@ -1762,6 +1781,16 @@ Proof.
   eapply gres_app; eassumption.
 Qed.
 
+Lemma then_settle_app (P : output -> Prop) pm n n1 o1 ds :
+  sysP P -> dialP pm P -> pmap n = pm -> gres P n (n1, o1) ->
+  gres P n (let '(n2, o2) := settle_app' n1 ds in (n2, (o1 ++ o2)%list)).
+Proof.
+  intros HP HD Hpm G.
+  assert (Hpm1 : pmap n1 = pm). { rewrite <- Hpm. apply (gres_pmap _ _ _ G). }
+  pose proof (settle_app'_g P pm n1 ds HP HD Hpm1) as G2. destruct (settle_app' n1 ds) as [n2 o2].
+  eapply gres_app; eassumption.
+Qed.
+
 Lemma step_other_g n ds e :
   (forall cid ms, e <> ERecv cid ms) -> gres (dialok (pmap n)) n (step n ds e).
 Proof.
@@ -1818,7 +1847,7 @@ Proof.
   - (* EAppAnswer *)
     cbn [step]. pose proof (route_answer_frame n m) as F. destruct (route_answer n m) as [[cid|] n1]; cbn [snd] in F.
     + pose proof (send_message_g P n1 cid m I) as G. destruct (send_message n1 cid m) as [n2 o2].
-      apply (then_settle P pm); auto. eapply gres_pre; eassumption.
+      apply (then_settle_app P pm); auto. eapply gres_pre; eassumption.
     + split; [exact F|constructor; [exact I|constructor]].
   - (* EAppRequest *)
     rewrite step_app_request. destruct (req_core _ _ ds i m realm pick timeout) as [n' outs] eqn:E.
@@ -1827,7 +1856,7 @@ Proof.
     apply req_core_shape in E. destruct E as [[-> ->]|E].
     + split; [exact F0|constructor; [exact I|constructor]].
     + destruct E as (usable & p & cid & c & m' & n4 & rest & _ & _ & _ & _ & _ & -> & Hs & Hrest & H9 & _ & _ & _ & _ & _ & _ & _ & F4).
-      pose proof (settle'_sys n4 ds) as [F5 _]. rewrite Hs in F5. cbn [fst] in F5.
+      pose proof (settle_app'_sys n4 ds) as [F5 _]. rewrite Hs in F5. cbn [fst] in F5.
       split; [eapply frame_trans; [exact F0|]; eapply frame_trans; eassumption|].
       cbn [snd]. constructor; [exact I|].
       assert (E : pmap (fst (e2e_prep n m)) = pm). { rewrite <- Hpm. apply F0. }
@@ -2312,9 +2341,9 @@ Definition ex_cer2 (e2e : Z) : omsg :=
 (* C09_to_requester / C09_answer_shape: the answer goes to connection 0 (host p1, ready, pair (5,9)
    waiting); the same macro step also dials p3 and queues the CER for it *)
 Example ex_C09_to_requester :
-  snd (step ex_node [(1, DialInProgress)] (EAppAnswer 0 ex_ans)) = [OQueue 0 ex_ans; OSend 0 ex_ans; ODial "p3"]
+  snd (step ex_node [(1, DialInProgress)] (EAppAnswer 0 ex_ans)) = [OQueue 0 ex_ans; ODial "p3"; OSend 0 ex_ans]
   /\ snd (step ex_node [] (EAppAnswer 0 ex_ans))
-     = [OQueue 0 ex_ans; OSend 0 ex_ans; ODial "p3"; OQueue 2 (ex_cer2 51); OSend 2 (ex_cer2 51)]
+     = [OQueue 0 ex_ans; ODial "p3"; OQueue 2 (ex_cer2 51); OSend 0 ex_ans; OSend 2 (ex_cer2 51)]
   /\ List.length (List.filter is_answer_queue (snd (step ex_node [] (EAppAnswer 0 ex_ans)))) = 1%nat
   /\ get_conn ex_node 0 = Some (ex_conn 0 "p1" SReady)
   /\ n_peer_waiting ex_node = [("p1", [(5, 9)])].
@@ -2371,7 +2400,7 @@ Definition ex_req_sent : omsg :=
 (* C10_eligible / C10_request_shape / C10_hbh_fresh: pick 1 of 2 -> p2 -> connection 1; hop-by-hop id 8 = seq_next 7 *)
 Example ex_C10_eligible :
   snd (step ex_node [(1, DialInProgress)] (EAppRequest 0 ex_req_out (Present "r") 1 10))
-  = [OQueue 1 ex_req_sent; OSend 1 ex_req_sent; ODial "p3"]
+  = [OQueue 1 ex_req_sent; ODial "p3"; OSend 1 ex_req_sent]
   /\ choose [ex_peer "p1" true (Some 0%nat) None; ex_peer "p2" true (Some 1%nat) None] 1 = Some (ex_peer "p2" true (Some 1%nat) None).
 Proof. vm_compute. repeat split. Qed.
 
